@@ -779,18 +779,24 @@ def rename_family():
     for label, tree, target in RENAME_SHAPES:
         parts = target.split(".")
         below = [p for p in tree if p.startswith(target + ".")]
-        for new in ("N", "B", "parent"):
+        for new in ("N", "B", "parent", "taken"):
             if new == "parent":
                 if len(parts) < 2 or parts[-2] == parts[-1]:
                     continue
                 nm = parts[-2]
+            elif new == "taken":
+                if len(parts) < 2:
+                    continue
+                nm = "f"            # a cells of the parent: the rename is refused and must change nothing
             else:
                 nm = new
-            renamed = ".".join(parts[:-1] + [nm])
+            renamed = ".".join(parts[:-1] + [nm]) if new != "taken" else target
 
             def moved(p):
                 return renamed + p[len(target):] if p == target or p.startswith(target + ".") else p
             for rel in ("alone", "is a base", "child is a base", "has a base", "mirror tree is a base"):
+                if new == "taken" and rel not in ("alone", "is a base"):
+                    continue
                 ops = []
                 for p in tree:
                     ops.append(["new_space", p.rsplit(".", 1)[0] if "." in p else "-", p.rsplit(".", 1)[-1], []])
